@@ -6,7 +6,7 @@ from typing import Dict, List, Optional, Set, Tuple
 
 from ..cfg import CFG, Node
 from ..core import AnalysisError, Cls, Fn, Repo, call_name, calls_in, const_value, dotted, get_kw, last_attr, short, walk_no_nested
-from ..pat import has, has_kw
+from ..pat import _tree_of, has, has_kw
 from ..report import Check
 from ..terms import Poly, TermBuilder, single_atom
 
@@ -16,24 +16,135 @@ LEAF = {"Box", "Discrete", "MultiDiscrete", "MultiBinary"}
 CONTAINER = {"Dict", "Tuple"}
 
 
-def _space_branches(fn: Fn, var: str) -> Tuple[Dict[str, ast.If], Optional[List[ast.stmt]]]:
-    """kinds tested with isinstance(<var>, spaces.K) at any nesting level of the if/elif chains on `var`; final else body."""
-    kinds: Dict[str, ast.If] = {}
+def _space_branches(fn: Fn, var: str) -> Tuple[Dict[str, ast.AST], Optional[List[ast.stmt]]]:
+    """kinds tested with isinstance(<var>, spaces.K) at any nesting level of the if/elif chains (or chained conditional expressions) on `var`; the final else
+    body of the outermost chain (a choice nested inside one of its branches refines that branch, it does not replace the chain's default)."""
+    kinds: Dict[str, ast.AST] = {}
     last_else: Optional[List[ast.stmt]] = None
+    nested: Set[int] = set()  # dispatch nodes that sit inside a branch (not the else-chain) of another dispatch node
     for n in ast.walk(fn.node):
-        if isinstance(n, ast.If) and isinstance(n.test, ast.Call) and call_name(n.test) == "isinstance" and len(n.test.args) == 2 and dotted(n.test.args[0]) == var:
+        if isinstance(n, (ast.If, ast.IfExp)) and isinstance(n.test, ast.Call) and call_name(n.test) == "isinstance" and len(n.test.args) == 2 and dotted(n.test.args[0]) == var:
             t = n.test.args[1]
             for x in (t.elts if isinstance(t, ast.Tuple) else [t]):
                 d = dotted(x)
                 if d.startswith("spaces."):
                     kinds.setdefault(d.split(".")[1], n)
-            if n.orelse and not (len(n.orelse) == 1 and isinstance(n.orelse[0], ast.If)):
-                last_else = n.orelse
+            for b in (n.body if isinstance(n, ast.If) else [n.body]):
+                nested |= {id(x) for x in ast.walk(b)}
+            # the same dispatch spelled with a conditional expression: its else arm is a branch that cannot raise
+            orelse = n.orelse if isinstance(n, ast.If) else ([] if isinstance(n.orelse, ast.IfExp) else [ast.copy_location(ast.Expr(value=n.orelse), n.orelse)])
+            if orelse and not (len(orelse) == 1 and isinstance(orelse[0], ast.If)) and id(n) not in nested:
+                last_else = orelse
     return kinds, last_else
 
 
 def _raises(body: Optional[List[ast.stmt]]) -> bool:
     return bool(body) and any(isinstance(s, ast.Raise) for s in body)
+
+
+# ------------------------------------------------------------------------------------------------ one verdict for both spellings of a choice
+# `x = a if c else b` and `if c: x = a` / `else: x = b` are the same program.  The rules below never look at "the" definition of a local or at a conditional
+# expression as such: they look at the alternatives of a value (one per reaching definition and per arm of a conditional expression), at the guards of an
+# expression (the enclosing `if` tests plus the tests of the conditional expressions it is an arm of) and, where a pattern contains a conditional expression,
+# at both spellings of the code.
+def _arms(v: Optional[ast.AST]) -> List[Optional[ast.AST]]:
+    """The alternatives of a value: the arms of a conditional expression (nested ones flattened), the value itself otherwise."""
+    if isinstance(v, ast.IfExp):
+        return _arms(v.body) + _arms(v.orelse)
+    return [v]
+
+
+def _alt_values(cfg: CFG, at: Optional[Node], name: str) -> List[Optional[ast.AST]]:
+    """Every value `name` may hold at `at`: one per reaching definition and per arm of a conditional expression (None for an opaque definition)."""
+    out: List[Optional[ast.AST]] = []
+    for d in (cfg.defs_reaching(at, name) if at is not None else []):
+        out += _arms(cfg.value_of_def(d, name))
+    return out
+
+
+def _arm_tests(root: ast.AST, x: ast.AST) -> List[Tuple[ast.AST, bool]]:
+    """(test, polarity) of the conditional expressions inside `root` that decide whether the sub-expression `x` is evaluated."""
+    def go(n: ast.AST, acc: List[Tuple[ast.AST, bool]]) -> Optional[List[Tuple[ast.AST, bool]]]:
+        if n is x:
+            return acc
+        if isinstance(n, ast.IfExp):
+            for ch, extra in ((n.test, []), (n.body, [(n.test, True)]), (n.orelse, [(n.test, False)])):
+                r = go(ch, acc + extra)
+                if r is not None:
+                    return r
+            return None
+        for ch in ast.iter_child_nodes(n):
+            r = go(ch, acc)
+            if r is not None:
+                return r
+        return None
+    return go(root, []) or []
+
+
+def _expr_guards(cfg: CFG, x: ast.AST) -> List[Tuple[ast.AST, bool]]:
+    """(test, polarity) of everything known where the expression `x` is evaluated: the `if` tests around its statement and the tests of the conditional
+    expressions it is an arm of (leading negations folded into the polarity)."""
+    n = cfg.node_of(x)
+    if n is None:
+        return []
+    out = [(g, pol) for g, pol, _ in cfg.guards_at(n)]
+    for root in n.exprs():
+        for t, pol in _arm_tests(root, x):
+            while isinstance(t, ast.UnaryOp) and isinstance(t.op, ast.Not):
+                t, pol = t.operand, not pol
+            out.append((t, pol))
+    return out
+
+
+def _folded(stmts: List[ast.stmt]) -> Optional[ast.stmt]:
+    """A branch that is one plain binding / return, or a two-way `if` over such branches for the same target, written as ONE statement with a conditional
+    expression: `if c: T = a` / `else: T = b` -> `T = a if c else b` (also `return`, augmented assignments; nested choices fold into nested expressions)."""
+    if len(stmts) != 1:
+        return None
+    s = stmts[0]
+    if isinstance(s, (ast.Return, ast.AugAssign)) or (isinstance(s, ast.Assign) and len(s.targets) == 1):
+        return s if getattr(s, "value", None) is not None else None
+    if isinstance(s, ast.If) and s.orelse:
+        a, b = _folded(s.body), _folded(s.orelse)
+        if a is None or b is None or type(a) is not type(b):
+            return None
+        val = ast.IfExp(test=s.test, body=a.value, orelse=b.value)
+        if isinstance(a, ast.Return):
+            new: ast.stmt = ast.Return(value=val)
+        elif isinstance(a, ast.Assign):
+            if ast.dump(a.targets[0]) != ast.dump(b.targets[0]):
+                return None
+            new = ast.Assign(targets=a.targets, value=val)
+        else:
+            if ast.dump(a.target) != ast.dump(b.target) or type(a.op) is not type(b.op):
+                return None
+            new = ast.AugAssign(target=a.target, op=a.op, value=val)
+        return ast.fix_missing_locations(ast.copy_location(new, s))
+    return None
+
+
+def _choice_view(root: ast.AST) -> ast.Module:
+    """Every two-way choice of `root` that is spelled as a statement, re-spelled with a conditional expression (outermost choices only: nested ones are
+    part of the folded expression)."""
+    out: List[ast.stmt] = []
+
+    def walk(n: ast.AST) -> None:
+        if isinstance(n, ast.If):
+            f = _folded([n])
+            if f is not None:
+                out.append(f)
+                return
+        for ch in ast.iter_child_nodes(n):
+            walk(ch)
+    walk(root)
+    return ast.Module(body=out, type_ignores=[])
+
+
+def _has_choice(target, pattern: str) -> bool:
+    """`has` for a pattern that contains a conditional expression; the code may spell the choice as an expression or as an if / else statement
+    (metavariables are shared with the other patterns matched on `target`)."""
+    tree = _tree_of(target)
+    return has(tree, pattern, env_key=tree) or has(_choice_view(tree), pattern, env_key=tree)
 
 
 def run(ck: Check, repo: Repo) -> None:
@@ -253,9 +364,9 @@ def _agent_order(ck: Check, repo: Repo) -> None:
             for a in z.args:
                 if dotted(a).startswith("self."):
                     continue
-                vals = [a]
+                vals = _arms(a)
                 if isinstance(a, ast.Name) and node is not None:
-                    vals = [cfg.value_of_def(d, a.id) for d in cfg.defs_reaching(node, a.id)]
+                    vals = _alt_values(cfg, node, a.id)
                 for v in vals:
                     n += 1
                     ok = isinstance(v, ast.ListComp) and len(v.generators) == 1 and dotted(v.generators[0].iter) == "self.agent_ids" \
@@ -300,9 +411,9 @@ def _pre_encoding_shape(ck: Check, repo: Repo) -> None:
             continue
         n += 1
         sh = c.args[1]
-        vals = [sh]
+        vals = _arms(sh)
         if isinstance(sh, ast.Name):
-            vals = [cfg.value_of_def(d, sh.id) for d in cfg.defs_reaching(node, sh.id)]
+            vals = _alt_values(cfg, node, sh.id)
         for v in vals:
             src = ast.unparse(v) if v is not None else "?"
             ok = v is not None and "sum(" not in src and ("observation_space.shape" in src or "len(observation_space.nvec)" in src)
@@ -348,14 +459,17 @@ def _dispatch(ck: Check, repo: Repo) -> None:
     shapes = {}
     for n in cfg.live_nodes():
         if n.kind == "stmt" and isinstance(n.ast, ast.Assign) and dotted(n.ast.targets[0]) == shape_var:
-            g = [ast.unparse(gg) for gg, pol, _ in cfg.guards_at(n) if pol and "isinstance(observation_space" in ast.unparse(gg)]
-            kind = g[-1].split("spaces.")[-1].rstrip(")") if g else "?"
-            shapes[kind] = ast.unparse(n.ast.value)
+            for v in _arms(n.ast.value):
+                g = [ast.unparse(gg) for gg, pol in _expr_guards(cfg, v) if pol and "isinstance(observation_space" in ast.unparse(gg)]
+                kind = g[-1].split("spaces.")[-1].rstrip(")") if g else "?"
+                txt = ast.unparse(v)
+                shapes[kind] = txt if shapes.get(kind) in (None, txt) else f"{shapes[kind]} | {txt}"  # two different shapes for one kind agree with nothing
     want = {"Box": "observation_space.shape", "Discrete": "(observation_space.n,)", "MultiDiscrete": "(sum(observation_space.nvec),)", "MultiBinary": "(observation_space.n,)"}
     for k, w in want.items():
         ck.ob("C15.1", po, po.node, shapes.get(k) == w, f"the network input shape used for {k} is {w}", detail=f"found {shapes.get(k)}", construct=f"space_shape for {k}")
     sd = repo.fn(BASE, "EvolvableAlgorithm.get_state_dim")
-    s2 = ast.unparse(sd.node)
+    # everything get_state_dim can return: one entry per return statement and per arm of a conditional expression
+    s2 = {"return " + ast.unparse(a) for r in walk_no_nested(sd.node) if isinstance(r, ast.Return) and r.value is not None for a in _arms(r.value)}
     for k, frag in (("Discrete", "return (observation_space.n,)"), ("MultiDiscrete", "return (sum(observation_space.nvec),)"), ("Box", "return observation_space.shape"), ("MultiBinary", "return (observation_space.n,)")):
         ck.ob("C15.1", sd, sd.node, frag in s2, f"get_state_dim agrees with preprocess_observation on the input shape of {k}", construct=f"get_state_dim {k}")
     ot = repo.fn(AU, "obs_to_tensor")
@@ -393,8 +507,7 @@ def _one_hot(ck: Check, repo: Repo) -> None:
     for c in ohs:
         nc = get_kw(c, "num_classes", 1)
         s = ast.unparse(nc) if nc is not None else ""
-        n = cfg.node_of(c)
-        g = [ast.unparse(gg) for gg, pol, _ in cfg.guards_at(n) if pol and "isinstance(observation_space" in ast.unparse(gg)] if n is not None else []
+        g = [ast.unparse(gg) for gg, pol in _expr_guards(cfg, c) if pol and "isinstance(observation_space" in ast.unparse(gg)]
         kind = g[-1].split("spaces.")[-1].rstrip(")") if g else "?"
         if kind == "Discrete":
             ck.ob("C15.3", po, c, s == "int(observation_space.n)", "Discrete values are one-hot encoded with width n of the space", detail=s)
@@ -418,20 +531,17 @@ def _image(ck: Check, repo: Repo) -> None:
     fn = repo.fn(AU, "apply_image_normalization")
     cfg = CFG(fn.node)
     tb = TermBuilder(repo, fn, cfg=cfg, depth=0)
-    # the returned value, looked through one single-definition temporary
-    def _ret_value(n: Node) -> Optional[ast.AST]:
-        v = n.ast.value
-        if isinstance(v, ast.Name):
-            ds = cfg.defs_reaching(n, v.id)
-            vs = [cfg.value_of_def(d, v.id) for d in ds]
-            if len(vs) == 1 and vs[0] is not None:
-                return vs[0]
-        return v
+    # the returned values: every arm of the returned expression, looked through one temporary (all its alternatives)
+    def _ret_values(n: Node) -> List[ast.AST]:
+        out: List[ast.AST] = []
+        for v in _arms(n.ast.value):
+            vs = _alt_values(cfg, n, v.id) if isinstance(v, ast.Name) else []
+            out += vs if vs and all(x is not None for x in vs) else [v]
+        return out
 
-    rets = [n for n in cfg.live_nodes() if n.kind == "stmt" and isinstance(n.ast, ast.Return) and isinstance(_ret_value(n), ast.BinOp)]
+    rets = [(n, v) for n in cfg.live_nodes() if n.kind == "stmt" and isinstance(n.ast, ast.Return) and n.ast.value is not None for v in _ret_values(n) if isinstance(v, ast.BinOp)]
     ck.floor("C15.4", len(rets), 1, "scaling return in apply_image_normalization", fn=fn)
-    for r in rets:
-        v = _ret_value(r)
+    for r, v in rets:
         ok = isinstance(v.op, ast.Div) and isinstance(v.left, ast.BinOp) and isinstance(v.left.op, ast.Sub) and isinstance(v.right, ast.BinOp) and isinstance(v.right.op, ast.Sub)
         lo = hi = "?"
         if ok:
@@ -442,18 +552,16 @@ def _image(ck: Check, repo: Repo) -> None:
                 lo, hi = v.left.right.id, v.right.left.id
         ck.ob("C15.4", fn, r.ast, ok, "the scaled value is (observation - low) / (high - low)", detail=short(v, 80))
         for nm, attr in ((lo, "low"), (hi, "high")):
-            defs = cfg.defs_reaching(r, nm)
-            vals = [ast.unparse(cfg.value_of_def(d, nm)) for d in defs if cfg.value_of_def(d, nm) is not None]
+            vals = [ast.unparse(x) for x in _alt_values(cfg, r, nm) if x is not None]
             ck.ob("C15.4", fn, r.ast, bool(vals) and all(f"observation_space.{attr}" in x for x in vals), f"`{attr}` is the space's {attr} bound", detail=str(vals)[:120])
     po = repo.fn(AU, "preprocess_observation")
     pcfg = CFG(po.node)
     calls = [c for c in calls_in(po.node) if call_name(c) == "apply_image_normalization"]
     ok = len(calls) == 1
     if ok:
-        n = pcfg.node_of(calls[0])
         atoms = []
         from ..domains import conjuncts
-        for g, pol, _ in pcfg.guards_at(n):
+        for g, pol in _expr_guards(pcfg, calls[0]):
             atoms += [(ast.unparse(a), p) for a, p in conjuncts(g, pol)]
         ok = ("len(observation_space.shape) == 3", True) in atoms and ("normalize_images", True) in atoms and ("isinstance(observation_space, spaces.Box)", True) in atoms \
             and [dotted(a) for a in calls[0].args] == ["observation", "observation_space"]
@@ -486,7 +594,7 @@ def _batch_dim(ck: Check, repo: Repo) -> None:
     ck.ob("C15.5", fn, rets[0].ast if rets else fn.node, bool(rets) and all(dotted(r.ast.value) == "obs" for r in rets), "the (possibly reshaped) observation is returned")
     gv = repo.fn(AU, "get_vect_dim")
     src = ast.unparse(gv.node)
-    ck.ob("C15.5", gv, gv.node, has(src, '$array_shape[0] if len($array_shape) > len($observation_space.shape) else 1'), "a vectorised observation is recognised by having more axes than its space",
+    ck.ob("C15.5", gv, gv.node, _has_choice(src, '$array_shape[0] if len($array_shape) > len($observation_space.shape) else 1'), "a vectorised observation is recognised by having more axes than its space",
           construct="get_vect_dim generic branch")
     ck.ob("C15.5", gv, gv.node, has(src, 'get_vect_dim($first_obs, $observation_space[$first_key])') and has(src, 'get_vect_dim($observation[0], $observation_space[0])'),
           "for Dict / Tuple observations the member and its own sub-space decide", construct="get_vect_dim containers")
@@ -526,12 +634,10 @@ def _agents(ck: Check, repo: Repo) -> None:
         ck.ob("C15.6", sc, c, const_value(get_kw(c, "dim")) == 1, "vector observations of the agents are concatenated on the feature axis")
     cfg = CFG(sc.node)
     for c in stacks:
-        n = cfg.node_of(c)
-        g = [(ast.unparse(gg), pol) for gg, pol, _ in cfg.guards_at(n)]
+        g = [(ast.unparse(gg), pol) for gg, pol in _expr_guards(cfg, c)]
         ck.ob("C15.6", sc, c, any("is_image_space" in t and pol for t, pol in g), "stacking is used exactly for image spaces", construct=f"stack guard {short(c, 50)}")
     for c in cats:
-        n = cfg.node_of(c)
-        g = [(ast.unparse(gg), pol) for gg, pol, _ in cfg.guards_at(n)]
+        g = [(ast.unparse(gg), pol) for gg, pol in _expr_guards(cfg, c)]
         ck.ob("C15.6", sc, c, any("is_image_space" in t and not pol for t, pol in g), "concatenation is used exactly for non-image spaces", construct=f"cat guard {short(c, 50)}")
     src = ast.unparse(sc.node)
     ck.ob("C15.6", sc, sc.node, has(src, 'for $i in range(self.n_agents):\n    ...') and has(src, 'for $j in range(self.n_agents):\n    ...'), "members are gathered from every agent in agent order", construct="stack_critic_observations agent order")
@@ -566,4 +672,23 @@ VARIANTS = [
      "                observation_space=self.single_space,\n                device=self.device,\n                normalize_images=self.normalize_images,\n            )\n\n        return preprocessed\n\n    def extract_action_masks", "fire", "C15.6"),
     ("critic-images-cat", _BF, "        elif is_image_space(self.single_space):\n            processed_obs = torch.stack(obs, dim=2)", "        elif is_image_space(self.single_space):\n            processed_obs = torch.cat(obs, dim=1)", "fire", "C15.6"),
     ("critic-vectors-dim0", _BF, "        else:\n            processed_obs = torch.cat(obs, dim=1)\n\n        return processed_obs", "        else:\n            processed_obs = torch.cat(obs, dim=0)\n\n        return processed_obs", "fire", "C15.6"),
+    # one verdict for both spellings of a two-way choice (conditional expression <-> if / else statement)
+    ("vect-dim-choice-as-statement-ok", _AUF, "        return array_shape[0] if len(array_shape) > len(observation_space.shape) else 1\n",
+     "        if len(array_shape) > len(observation_space.shape):\n            return array_shape[0]\n        else:\n            return 1\n", "silent", None),
+    ("vect-dim-statement-same-rank-counts-as-vectorised", _AUF, "        return array_shape[0] if len(array_shape) > len(observation_space.shape) else 1\n",
+     "        if len(array_shape) >= len(observation_space.shape):\n            return array_shape[0]\n        else:\n            return 1\n", "fire", "C15.5"),
+    ("critic-leaf-choice-as-expression-ok", _BF, "        elif is_image_space(self.single_space):\n            processed_obs = torch.stack(obs, dim=2)\n        else:\n            processed_obs = torch.cat(obs, dim=1)\n",
+     "        else:\n            processed_obs = torch.stack(obs, dim=2) if is_image_space(self.single_space) else torch.cat(obs, dim=1)\n", "silent", None),
+    ("critic-leaf-choice-as-expression-arms-swapped", _BF, "        elif is_image_space(self.single_space):\n            processed_obs = torch.stack(obs, dim=2)\n        else:\n            processed_obs = torch.cat(obs, dim=1)\n",
+     "        else:\n            processed_obs = torch.cat(obs, dim=1) if is_image_space(self.single_space) else torch.stack(obs, dim=2)\n", "fire", "C15.6"),
+    ("image-bounds-choice-as-expressions-ok", _AUF, '    if isinstance(observation, torch.Tensor):\n        low = torch.tensor(\n            observation_space.low, device=observation.device, dtype=observation.dtype\n        )\n        high = torch.tensor(\n            observation_space.high, device=observation.device, dtype=observation.dtype\n        )\n    else:\n        low = observation_space.low\n        high = observation_space.high\n',
+     '    is_t = isinstance(observation, torch.Tensor)\n    low = torch.tensor(observation_space.low, device=observation.device, dtype=observation.dtype) if is_t else observation_space.low\n    high = torch.tensor(observation_space.high, device=observation.device, dtype=observation.dtype) if is_t else observation_space.high\n', "silent", None),
+    ("image-high-constant-on-the-array-arm", _AUF, '    if isinstance(observation, torch.Tensor):\n        low = torch.tensor(\n            observation_space.low, device=observation.device, dtype=observation.dtype\n        )\n        high = torch.tensor(\n            observation_space.high, device=observation.device, dtype=observation.dtype\n        )\n    else:\n        low = observation_space.low\n        high = observation_space.high\n',
+     '    is_t = isinstance(observation, torch.Tensor)\n    low = torch.tensor(observation_space.low, device=observation.device, dtype=observation.dtype) if is_t else observation_space.low\n    high = torch.tensor(observation_space.high, device=observation.device, dtype=observation.dtype) if is_t else 255.0\n', "fire", "C15.4"),
+    ('state-dim-leaf-choice-as-expression-ok', _BF, '        elif isinstance(observation_space, spaces.Box):\n            return observation_space.shape\n        elif isinstance(observation_space, spaces.MultiBinary):\n            return (observation_space.n,)\n        else:\n            raise AttributeError(\n                f"Can\'t access state dimensions for',
+     '        elif isinstance(observation_space, (spaces.Box, spaces.MultiBinary)):\n            return observation_space.shape if isinstance(observation_space, spaces.Box) else (observation_space.n,)\n        else:\n            raise AttributeError(\n                f"Can\'t access state dimensions for', 'silent', None),
+    ('state-dim-leaf-choice-as-nested-statement-ok', _BF, '        elif isinstance(observation_space, spaces.Box):\n            return observation_space.shape\n        elif isinstance(observation_space, spaces.MultiBinary):\n            return (observation_space.n,)\n        else:\n            raise AttributeError(\n                f"Can\'t access state dimensions for',
+     '        elif isinstance(observation_space, (spaces.Box, spaces.MultiBinary)):\n            if isinstance(observation_space, spaces.Box):\n                return observation_space.shape\n            else:\n                return (observation_space.n,)\n        else:\n            raise AttributeError(\n                f"Can\'t access state dimensions for', 'silent', None),
+    ('state-dim-expression-box-flattened', _BF, '        elif isinstance(observation_space, spaces.Box):\n            return observation_space.shape\n        elif isinstance(observation_space, spaces.MultiBinary):\n            return (observation_space.n,)\n        else:\n            raise AttributeError(\n                f"Can\'t access state dimensions for',
+     '        elif isinstance(observation_space, (spaces.Box, spaces.MultiBinary)):\n            return (int(np.prod(observation_space.shape)),) if isinstance(observation_space, spaces.Box) else (observation_space.n,)\n        else:\n            raise AttributeError(\n                f"Can\'t access state dimensions for', 'fire', 'C15.1'),
 ]
